@@ -261,6 +261,47 @@ void body_many_t(int n)
     delete lr;
 }
 
+// Life-cycle edge: the wrapper is constructed from an rvalue of a payload whose move empties the source; every later
+// state must derive from that initial value, whichever internal copy readers are directed to.
+void body_ctor_rvalue()
+{
+    using LRM = gmlc::libguarded::lr_guarded<hx::MPair>;
+    LRM* lr = new LRM(hx::MPair(5));
+    {
+        std::vector<int> ids;
+        ids.push_back(spawn([lr] {
+            for (int m = 0; m < 3; m++)
+                lr->modify([](hx::MPair& x) {
+                    ++x.a;
+                    point();
+                    ++x.b;
+                });
+        }));
+        ids.push_back(spawn([lr] {
+            int last = 5;
+            for (int i = 0; i < 3; i++) {
+                auto h = lr->lock_shared();
+                int a = h->a;
+                point();
+                int b = h->b;
+                MC_CHECK(a == b && a >= last && a <= 8, "bad-state", "reader observed (%d,%d) on a wrapper constructed from MPair(5) and modified by +1 steps", a, b);
+                last = a;
+            }
+        }));
+        for (int id : ids) join(id);
+    }
+    for (int k = 0; k < 2; k++) {
+        auto h = lr->lock_shared();
+        MC_CHECK(h->a == 8 + k && h->b == 8 + k, "bad-state", "after %d modifications of MPair(5) the value is (%d,%d)", 3 + k, h->a, h->b);
+        h.reset();
+        lr->modify([](hx::MPair& x) {
+            ++x.a;
+            ++x.b;
+        });
+    }
+    delete lr;
+}
+
 // Writers whose functor throws (half-way through its update) on its first or on its second
 // application: the modification must still be all-or-nothing for readers holding / taking handles.
 struct Boom {};
@@ -407,6 +448,13 @@ void make_items(const Options& o, std::vector<Item>& items)
         items.push_back(it);
     }
 #endif
+    {
+        Item it;
+        it.name = "lr_guarded<MPair> constructed from an rvalue (move empties the source) | writer: modify x3 | reader: lock_shared x3";
+        it.body = [] { body_ctor_rvalue(); };
+        it.bounds = hx::tier_bounds(o, 2, 4);
+        items.push_back(it);
+    }
     for (int n : {256, 65536}) {
         if (n > 256 && !thorough) continue;
         Item it;
